@@ -40,7 +40,7 @@ ASSUMPTIONS = [
     "get_data results are flattened per channel before comparison (the statement asks for the same bits, not a shape)",
     "SYNC with d=0 must return 0 (d < one pattern length includes 0)",
 ]
-N_RUNS = {"quick": 2500, "thorough": 60000}
+N_RUNS = {"quick": 5000, "thorough": 60000}
 NONTRIVIAL_OPS = 3
 MEM = LIMITS["memory"]
 
@@ -227,6 +227,7 @@ def generate(seed, tier):
                 nsl, sps = prev_sync[-1]["nslots"], prev_sync[-1]["sps"]     # the same pattern buffer refilled
             L = nsl * sps
             ops.append({"op": "sync", "nslots": nsl, "sps": sps, "pseed": rng.getrandbits(32), "reuse": reuse,
+                        "gvstyle": rng.choice(["sps", "sps", "fs", "fsdt"]),
                         "d": rng.choice([0, 1, sps - 1, sps, L - 1, L // 2, rng.randrange(L), rng.randrange(L),
                                          L - 1 - rng.randrange(max(1, L // 8))]),
                         "sigma": rng.choice([0.0, 0.01, 0.05, 0.1]), "nseed": rng.getrandbits(32),
@@ -243,12 +244,22 @@ def generate(seed, tier):
                         "cut": rng.choice([1, 2, 100]), "form": rng.choice(["es", "arr"])})
         if ops and isinstance(ops[-1].get("chs"), list) and k != "rewrite":
             ops[-1]["chf"] = rng.choice(["list", "list", "tuple", "arr", "arr", "arr_i32"])
+    if rng.random() < 0.3:
+        # two instruments, two driver objects, used in turn (a fault is armed on the station of the call it precedes)
+        dev = 0
+        for o in reversed(ops):
+            if o["op"] != "fault":
+                dev = int(rng.random() < 0.45)
+            o["dev"] = dev
+        ops[0]["dev"] = 0
     return {}, ops
 
 
 def simplify_op(op):
     if op.get("chf") not in (None, "list"):
         yield dict(op, chf="list")
+    if op.get("dev"):
+        yield dict(op, dev=0)
     if op.get("op") in ("set_data", "get_data") and op["n"] > 1:
         for n in (1, 1024, 1025, op["n"] // 2):
             if n < op["n"]:
@@ -296,18 +307,33 @@ class Bench:
         self.rec = rec
         self.clock = seams.install_clock(0)
         self.tx_bufs = {}
-        self.inst = fakevisa.SimInstrument()
-        self.sessions = fakevisa.install(self.inst, self.clock, rec)
-        self.ppg = None
-        self.dry = False
-        self.pending_fault = None
-        self.wire_seen = 0
-        self.faults_since_roundtrip = False
+        # two instruments on the bus, each with its own driver object ("station"); most runs use only the first
+        self.addrs = ["SIM::1::INSTR", "SIM::2::INSTR"]
+        insts = {a: fakevisa.SimInstrument() for a in self.addrs}
+        sess = fakevisa.install_multi(insts, self.clock, rec)
+        self.stations = [{"ppg": None, "inst": insts[a], "sessions": sess[a], "dry": False, "pending_fault": None,
+                          "wire_seen": 0, "faults_since_roundtrip": False, "addr": a} for a in self.addrs]
+        self.cur = 0
+        for k_, v_ in self.stations[0].items():
+            setattr(self, k_, v_)
         self.ok_calls = 0
+
+    def _use(self, dev, quiet=False):
+        """Switch the bench to the other station (driver object + instrument + bookkeeping)."""
+        if dev == self.cur:
+            return
+        for k_ in self.stations[self.cur]:
+            self.stations[self.cur][k_] = getattr(self, k_)
+        self.cur = dev
+        for k_, v_ in self.stations[dev].items():
+            setattr(self, k_, v_)
+        if not quiet:
+            self.rec.fault("station_switch")
 
     # -- plumbing ------------------------------------------------------------------------
     def apply(self, op, step):
         self.rec.n_ops += 1
+        self._use(int(op.get("dev", 0)))
         if self.ppg is None and op["op"] not in ("connect", "sync", "sync_short", "filters", "fault"):
             self.op_connect({"mode": "visa"})
         out = getattr(self, "op_" + op["op"])(op)
@@ -316,7 +342,7 @@ class Bench:
     def op_connect(self, op):
         self.dry = op["mode"] == "dry"
         with seams.stdout_tap():
-            self.ppg = self.lab.PPG3204(None if self.dry else "SIM::1::INSTR")
+            self.ppg = self.lab.PPG3204(None if self.dry else self.addr)
         self._check_wire("connect")
         return op["mode"]
 
@@ -722,7 +748,7 @@ class Bench:
                 self.rec.fault("container_refilled")
             else:
                 self.tx_bufs[key] = tx
-        common.apply_gv({"sps": sps, "R": 1e9})
+        common.apply_gv(common.gv_kw(sps, 1e9, op.get("gvstyle", "sps")))
         what = f"SYNC(nslots={nsl}, sps={sps}, d={d}, sigma={op['sigma']}, {op['prefix']}, {op['form']})"
         results = []
         for form in (["es", "arr"] if op["form"] == "both" else [op["form"]]):
@@ -795,6 +821,11 @@ class Bench:
 
     # -- bounded liveness once faults stopped ---------------------------------------------------------------
     def finish(self):
+        for dev in range(len(self.stations)):
+            self._use(dev, quiet=True)
+            self._finish_station()
+
+    def _finish_station(self):
         if self.ppg is None or self.dry:
             return
         self.pending_fault = None
